@@ -190,10 +190,55 @@ func c02One(ws *pipe.Workspace, fam string, idx int64, s *lexref.Spec, L int, st
 	return out
 }
 
+// rangeAlgebraSpec: nr rules, rule r is one range over the points a..f (the
+// first rule followed by '!' so that it does not simply shadow the others):
+// every way ranges can nest, overlap, coincide with the remainder of a split
+// and be split again.
+func rangeAlgebraSpec(i int64, nr int) *lexref.Spec {
+	var rgs [][2]int
+	for lo := 'a'; lo <= 'f'; lo++ {
+		for hi := lo; hi <= 'f'; hi++ {
+			rgs = append(rgs, [2]int{int(lo), int(hi)})
+		}
+	}
+	s := &lexref.Spec{Modes: []lexref.Mode{{}}}
+	k := i
+	for r := 0; r < nr; r++ {
+		rg := rgs[k%int64(len(rgs))]
+		k /= int64(len(rgs))
+		rx := lexref.Cls(&lexref.Class{Items: []lexref.ClassItem{lexref.Range(rg[0], rg[1])}})
+		if r == 0 {
+			rx = lexref.Cat(rx, lexref.Lit("!"))
+		}
+		s.Modes[0].Rules = append(s.Modes[0].Rules, lexref.Rule{K: lexref.RToken, Name: fmt.Sprintf("T%d", r+1), Rx: rx})
+	}
+	return s
+}
+
+func rangeAlgebraSize(nr int) int64 {
+	n := int64(1)
+	for r := 0; r < nr; r++ {
+		n *= 21
+	}
+	return n
+}
+
 func c02Worker(c *mc.Ctx) {
 	prm := c02Families(c.Quick())
 	ws := pipe.NewWorkspace("c02")
 	defer ws.Close()
+	nr := 3
+	if !c.Quick() {
+		nr = 4
+	}
+	for i := int64(0); i < rangeAlgebraSize(nr); i++ {
+		if !c.Mine(i) {
+			continue
+		}
+		for _, v := range c02One(ws, fmt.Sprintf("range-algebra-%d", nr), i, rangeAlgebraSpec(i, nr), 1, &c.Stats, "C02", specInDomainC02) {
+			c.Stats.Violate(v)
+		}
+	}
 	for _, fam := range prm.sets {
 		n := fam.rs.Size()
 		if fam.limit > 0 && fam.limit < n {
